@@ -156,6 +156,10 @@ func runEnum(mergeKey string, specs ...EnumSpec) int {
 		keys = append(keys, k)
 	}
 	sort.Strings(keys)
+	if counters["non-exhaustive"] > 0 {
+		// a batch function reports cases whose enumeration was capped or not fully reproducible under this key
+		exhaustive = false
+	}
 	c.Coverage["evaluations"] = total
 	c.Coverage["distinct_nontrivial"] = len(outcomes)
 	c.Coverage["rule"] = spec0.Rule
